@@ -10,6 +10,7 @@ import re
 from .lib.discard import result_fates, verdict
 from .lib.guards import conditions
 from .lib.value import vstr
+from . import C12_helpers as H
 
 ENTRY_RX = [
     r'^libcnb::build::BuildContext::<B>::(cached_layer|uncached_layer|handle_layer)$',
@@ -71,6 +72,11 @@ def check_program(prog, rep, slicer, tag=''):
             subject = '%s/%s#%d%s' % (f.path, callee, k, tag)
             if v in ('ok', 'panics'):
                 rep.holds('R1', subject, c.where(), 'result of %s is %s' % (callee, 'propagated' if v == 'ok' else 'unwrapped (panics on error)'))
+            elif v == 'discarded' and H.stat_predicate(prog, slicer, f, c, fates):
+                # `fs::metadata(p).is_ok_and(|m| m.is_file())` is std's definition of `p.is_file()`: a stat used as
+                # a boolean path predicate is not one of the property's operations (see not_decided)
+                rep.holds('R1', subject, c.where(), 'the stat query %s is consumed as a boolean path predicate '
+                          '(the std definition of Path::exists/is_file/is_dir), not an operation of the property' % callee)
             elif v == 'discarded':
                 why = '; '.join(x.detail or x.kind for x in fates if x.kind == 'discarded')
                 rep.violated('R1', subject, c.where(),
@@ -128,29 +134,27 @@ def check_not_found_helper(prog, rep, slicer):
     ROLES = layer_roles.roles(prog, slicer)
     f = prog.fn(ROLES['NOT_FOUND_HELPER'] or 'libcnb::util::default_on_not_found')
     rep.analysed(f)
-    ok_sites = []
-    for bi, b in enumerate(f.blocks):
-        for s in b['s']:
-            if s[0] == '=' and s[1] == [0] and s[2]['r'] == 'agg' and s[2].get('variant') == 'Ok':
-                ok_sites.append(bi)
-    if not ok_sites:
+    # the helper's result decomposed into cases (through local copies and `result.or_else(|e| ..)`): the input
+    # returned unchanged / an error returned / a fresh Ok(..) produced — the latter only under Err(e) && not-found(e)
+    cases = H.helper_cases(prog, slicer, f)
+    for g_ in {c.fn.path: c.fn for c in cases}.values():
+        rep.analysed(g_)
+    if not any(c.kind == 'fresh_ok' for c in cases):
         rep.unproven('R2', 'default_on_not_found/ok-site', f.file, 'no Ok(..) construction found')
-    for bi in ok_sites:
-        conds = conditions(f, bi, slicer)
-        is_err = any(c.kind == 'variant' and c.outcome == frozenset({'Err'}) for c in conds)
-        nf = [c for c in conds if c.kind == 'bool' and c.value[0] == 'call'
-              and c.value[1] == ROLES['NOT_FOUND_PRED'] and c.outcome is True]
-        rep.check(is_err and bool(nf), 'R2', 'default_on_not_found/guard', '%s:%d' % (f.file, f.line),
-                  'Ok(default) is produced only under Err(e) && is_not_found_error_kind(e)',
-                  'Ok(default) is produced without the NotFound guard: other I/O errors would be swallowed',
-                  [repr(c) for c in conds])
-    # every other path returns the input unchanged
-    others = [d for d in f.whole_defs(0) if not (d[0] == 'stmt' and d[3]['r'] == 'agg')]
-    for d in others:
-        if d[0] == 'stmt':
-            v = slicer._rvalue(f, d[3], set(), 0, None)
-            rep.check(v[0] == 'param', 'R2', 'default_on_not_found/passthrough', '%s:%d' % (f.file, f.line),
-                      'all other results are returned unchanged', 'a non-NotFound result is altered: ' + vstr(v))
+    for c in cases:
+        if c.kind == 'fresh_ok':
+            is_err, nf, conds = H.fresh_ok_guard(prog, slicer, c, ROLES['NOT_FOUND_PRED'])
+            rep.check(is_err and nf, 'R2', 'default_on_not_found/guard', '%s:%d' % (f.file, f.line),
+                      'Ok(default) is produced only under Err(e) && is_not_found_error_kind(e)',
+                      'Ok(default) is produced without the NotFound guard: other I/O errors would be swallowed',
+                      [repr(x) for x in conds])
+        elif c.kind in ('same', 'err'):
+            # every other path returns the input unchanged (or an error: nothing is swallowed)
+            if c.kind == 'same':
+                rep.holds('R2', 'default_on_not_found/passthrough', '%s:%d' % (f.file, f.line), 'all other results are returned unchanged')
+        else:
+            rep.check(False, 'R2', 'default_on_not_found/passthrough', '%s:%d' % (f.file, f.line),
+                      'all other results are returned unchanged', 'a non-NotFound result is altered: ' + vstr(c.value)[:160])
     g = prog.fn(ROLES['NOT_FOUND_PRED'] or 'libcnb::util::is_not_found_error_kind')
     rep.analysed(g)
     true_sites = []
